@@ -780,6 +780,31 @@ def fixpoint_spec(chk, fx):
         ("assign", "(nterm_first[%s.l_idx] = %s)" % (L, acc)): {gkey},
         ("assign", "(?%s = true)" % chg): {gkey},
     })
+    # the flag is reset once per round: directly in the fixpoint loop, not inside the loop over the rules (there a later
+    # rule would erase the change an earlier rule reported and the iteration would stop too early)
+    for w in whiles:
+        for n in walk(w["body"]):
+            k = n.get("k")
+            tgt = None
+            if k == "BinaryOperator" and n.get("op") == "=":
+                tgt, rhs = n["c"][0], n["c"][1]
+            elif k == "CXXOperatorCallExpr" and n.get("op") == "=" and len(n.get("c") or []) == 3:
+                tgt, rhs = n["c"][1], n["c"][2]
+            if tgt is None or cn.c(tgt) != cn.c(w["cond"]) or cn.c(rhs) != "false":
+                continue
+            cur, inner = n, None
+            while cur is not None and cur is not w:
+                cur = cn.pm.get(id(cur))
+                if cur is not None and cur is not w and cur.get("k") in ("ForStmt", "WhileStmt", "DoStmt", "CXXForRangeStmt"):
+                    inner = cur
+                    break
+            if inner is not None:
+                chk.violation("FIXPOINT", A.site(f, n), "FIXPOINT:reset-inside-inner-loop",
+                              "the change flag %s is reset inside the loop over the rules: a change found for an earlier rule "
+                              "is forgotten when a later rule brings none, so the fixpoint iteration stops before the sets "
+                              "are complete" % cn.c(tgt))
+            else:
+                chk.ok("FIXPOINT", A.site(f, n), "the change flag is reset once per round, in the fixpoint loop itself")
     for w in whiles:
         c = cn.c(w["cond"])
         if not c.startswith("?"):
